@@ -168,6 +168,9 @@ func runWallet(r *evid.Run, dir string, idx int, cs int64) {
 		if mode == "sweep-two-outputs" && pair == nil {
 			mode = "send-to-self"
 		}
+		if mode == "sweep-two-outputs" && rg.Intn(3) != 0 {
+			class = "accepted" // the shape matters for the re-offer pass that follows
+		}
 		var changeOps []wire.OutPoint
 		for _, c := range f.SortedCoins() {
 			if c.Change && c.Height == -1 && c.SpentBy == "" {
@@ -439,7 +442,9 @@ func runWallet(r *evid.Run, dir string, idx int, cs int64) {
 			}
 		}
 		// ---- re-offer (synchronous hook) ----
-		if rg.Intn(3) == 0 {
+		// always right after a child with two inputs from one unconfirmed parent was
+		// accepted: that shape must be part of a pass while it is still unconfirmed
+		if rg.Intn(3) == 0 || (mode == "sweep-two-outputs" && sendErr == nil && tx != nil && unminedSet(f)[tx.TxHash()]) {
 			if !reoffer(r, f, rg, &log, fail) {
 				return
 			}
